@@ -20,6 +20,7 @@ import (
 	"errors"
 	"fmt"
 	"regexp/syntax"
+	"sort"
 	"sync"
 )
 
@@ -126,7 +127,11 @@ func (d *typeDictionary) resolveTypedefs() []error {
 	// When resolve typedefs, we may need to look up other typedefs.
 	// We gather all typedefs into a slice so we don't deadlock on
 	// typeDict.
-	for _, td := range d.typedefs() {
+	tds := d.typedefs()
+	// Resolve in source order rather than map order: which statement of a
+	// cyclic definition is reported depends on where the cycle is entered.
+	sort.Slice(tds, func(i, j int) bool { return Source(tds[i]) < Source(tds[j]) })
+	for _, td := range tds {
 		errs = append(errs, td.resolve(d)...)
 	}
 	return errs
